@@ -228,6 +228,36 @@ def weighted01 : List (Nat × Rat) → List Nat → Rat
   | (y, w) :: rows, h :: hs => (if h = y then 0 else w) + weighted01 rows hs
   | _, _ => 0
 
+/-! ### the loop of `GridSearch.fit` over the grid columns -/
+
+/-- number of distinct labels of the relabelled data (`len(np.unique(y_reduction))`) -/
+def nUnique (data : List (Nat × Rat)) : Nat := (data.map (·.1)).eraseDups.length
+
+/-- the estimator trained at one grid point: `DummyClassifier(strategy="constant", constant=y_reduction_unique[0])`
+    when the relabelled data has a single label (lifted test `GridSrc.useDummy`), else the base learner
+    (a PARAMETER of the model: any function from the relabelled / reweighted rows to a labeling of the rows) -/
+def trainAt (learner : List (Nat × Rat) → List Nat) (data : List (Nat × Rat)) : List Nat :=
+  if GridSrc.useDummy (nUnique data : Nat) then data.map (fun _ => (data.map (·.1)).headD 0)
+  else learner data
+
+structure FitOut where
+  preds : List (List Nat)       -- `predictors_` (their labelings of the training rows)
+  objectives : List Rat         -- `objectives_`
+  gammas : List (List Rat)      -- `gammas_` (one vector per predictor)
+  best : Nat                    -- `best_idx_`
+deriving Repr
+
+/-- `for i in grid.columns:` weights = constraint weights [+ objective weights]; relabel; train; record the
+    objective and the constraint violation OF THE TRAINED PREDICTOR; then select.  `cwOf` / `ow`: signed weights of
+    the constraints for a multiplier vector and of the objective (C07's model, parameters here); `objOf` / `gamOf`:
+    `objective.gamma(h)` and `constraints.gamma(h)` of a labeling (parameters). -/
+def fitLoop (span : Bool) (cwOf : List Rat → List Rat) (ow : List Rat)
+    (learner : List (Nat × Rat) → List Nat) (objOf : List Nat → Rat) (gamOf : List Nat → List Rat)
+    (cw : Rat) (grid : List (List Rat)) : Option FitOut :=
+  let preds := grid.map (fun lam => trainAt learner (relabel (combineWeights span (cwOf lam) ow)))
+  let recs := preds.map (fun h => (objOf h, gamOf h))
+  (select cw recs).map (fun b => ⟨preds, recs.map (·.1), recs.map (·.2), b⟩)
+
 /-! ### driver glue -/
 
 def parseBools (s : String) : Option (List Bool) := Proto.parseList Proto.parseBool s
@@ -249,6 +279,8 @@ def allSome {α} : List (Option α) → Option (List α)
   `grid.estimate <negAllowed> <forceL1> <gridSize> <n0>`           → `<noOvershoot 0/1> <least n> <n reached from n0>`
   `grid.select2 <cw> <objectives> <gammas>`  → `<select> <runningArgmin> <predictor index predict delegates to>`
   `grid.weights <span 0/1> <constraint weights> <objective weights>` → `<combined> <labels> <abs weights> <useDummy 0/1>`
+  `grid.fitloop <span> <cw> <objective weights> <constraint weights per point ;> <learner labelings per point ;>
+        <objective per point> <gammas per point ;>` → `<best_idx> <trained labelings ;> <objectives>`
   `grid.select <cw> <objectives> <gammas, one row per predictor>`   → `<best idx> <losses>`
   `grid.relabel <signed weights>`                                   → `<labels> <abs weights>`
   `grid.cost <signed weights> <labeling per row>`                   → weighted 0/1 error -/
@@ -321,6 +353,36 @@ def handle (toks : List String) : Option String :=
       let uniq := (r.map (·.1)).eraseDups.length
       pure (Proto.fmtRats c ++ " " ++ Proto.fmtNats (r.map (·.1)) ++ " " ++ Proto.fmtRats (r.map (·.2)) ++ " " ++
         Proto.fmtBool (GridSrc.useDummy (uniq : Nat)))
+  | ["grid.fitloop", span, cw, ow, cws, preds, objs, gams] => do
+    -- the loop replayed on recorded data: `cws` = constraint weights per grid point, `preds` = the labelings the
+    -- base learner returned per grid point (used as the learner), objs / gams = the oracle's records per labeling
+    let span ← Proto.parseBool span
+    let cw ← Proto.parseRat cw
+    let ow ← Proto.parseRats ow
+    let cws ← Proto.parseMat cws
+    let preds ← (if preds = "-" then some [] else (preds.splitOn ";").mapM Proto.parseNats)
+    let objs ← Proto.parseRats objs
+    let gams ← Proto.parseMat gams
+    if cws.length ≠ preds.length || preds.length ≠ objs.length || objs.length ≠ gams.length then none
+    else
+      -- multiplier vectors are represented by their position; the parameters look the recorded values up
+      let idx := fun (lam : List Rat) => match lam with | [q] => q.num.toNat | _ => 0
+      let grid := (List.range cws.length).map (fun (i : Nat) => [(i : Rat)])
+      let table := (preds.zip (objs.zip gams))
+      let look := fun (h : List Nat) => (table.find? (fun t => t.1 == h)).map (·.2)
+      let learnerAt := fun (i : Nat) (_ : List (Nat × Rat)) => preds.getD i []
+      -- the learner must be one function: it is looked up by the relabelled data it receives
+      let datas := cws.map (fun c => relabel (combineWeights span c ow))
+      let learner := fun (d : List (Nat × Rat)) =>
+        match (datas.zip (List.range datas.length)).find? (fun t => t.1 == d) with
+        | some t => learnerAt t.2 d
+        | none => []
+      match fitLoop span (fun lam => cws.getD (idx lam) []) ow learner
+          (fun h => ((look h).map (·.1)).getD 0) (fun h => ((look h).map (·.2)).getD []) cw grid with
+      | none => pure "err:select"
+      | some out =>
+        pure (toString out.best ++ " " ++ ";".intercalate (out.preds.map Proto.fmtNats) ++ " " ++
+          Proto.fmtRats out.objectives)
   | ["grid.select", cw, objs, gams] => do
     let cw ← Proto.parseRat cw
     let objs ← Proto.parseRats objs
